@@ -11,7 +11,8 @@ class DataContainer(dict):
         self._allow_compute = dict({k: True for k in self.keys()})
 
     def add(self, data: DataArray, name: str, allow_compute: bool = True) -> None:
-        data.name = name
+        # Store a renamed (shallow) copy: the caller's array may be shared with another model
+        data = data.rename(name)
         super().__setitem__(name, data)
         self._allow_compute[name] = True if allow_compute else False
 
